@@ -1448,7 +1448,20 @@ class Unit:
                 elif r == "R11":
                     rule_R11(ed, src, parts, int(args[1]), args[2] if len(args) > 2 else "verif_it%s" % args[1])
                 elif r == "R9":
-                    rule_R9(ed, src, parts, int(args[1]) if len(args) > 1 else 1)
+                    if len(args) > 1 and args[1] == "all":
+                        # every `.map(..)` of the body (they are all Meta::map in the function the
+                        # rule is declared for; anything else fails to type-check afterwards)
+                        n = 1
+                        while True:
+                            try:
+                                rule_R9(ed, src, parts, n)
+                            except ExtractError:
+                                break
+                            n += 1
+                        if n == 1:
+                            self.report.setdefault("notes", []).append("%s: rule R9 all: nothing to rewrite" % label)
+                    else:
+                        rule_R9(ed, src, parts, int(args[1]) if len(args) > 1 else 1)
                 else:
                     raise ExtractError("%s: unknown rule %s" % (label, r))
             elif name == "closure":
@@ -1456,7 +1469,7 @@ class Unit:
                 if not m:
                     raise ExtractError("%s: bad //@closure argument" % label)
                 rule_R7(ed, src, parts, int(m.group(1)), m.group(2), text)
-            elif name in ("subst", "nospinoff", "r4inv", "r4body", "r4after"):
+            elif name in ("subst", "nospinoff", "r4inv", "r4body", "r4after", "optional"):
                 pass
             elif name == "pubfields":
                 rule_R8(ed, src, a, b)
@@ -1522,7 +1535,15 @@ class Unit:
                 blk = node[1]
                 rel, path = split_arg(blk.arg)
                 src = self.source(rel)
-                a, b = locate(src, path)
+                try:
+                    a, b = locate(src, path)
+                except ExtractError:
+                    if any(n == "optional" for (n, _a, _t) in blk.subs):
+                        # an item the code may or may not have (e.g. a nested helper that a
+                        # refactoring inlined): nothing to emit
+                        self.report.setdefault("notes", []).append("optional item `%s :: %s` is not in the source" % (rel, path))
+                        continue
+                    raise
                 out.append_item(self.emit_item(src, a, b, blk, "%s :: %s" % (rel, path)))
             elif node[0] == "impl":
                 blk, children = node[1], node[2]
